@@ -1,6 +1,5 @@
 /- C08 audit (unparser side): axioms and statements of every property theorem -/
 import CalmVerif.Props.C08
-import CalmVerif.Props.C11
 #print axioms CalmVerif.Props.C08.space_fragments_unpositioned
 #check @CalmVerif.Props.C08.space_fragments_unpositioned
 #print axioms CalmVerif.Props.C08.resolve_is_hook_or_absent
@@ -13,7 +12,3 @@ import CalmVerif.Props.C11
 #check @CalmVerif.Props.C08.fragment_source_is_stack_top
 #print axioms CalmVerif.Props.C08.fragments_of_all_rule_sets
 #check @CalmVerif.Props.C08.fragments_of_all_rule_sets
--- parser side (shared with C11)
-open CalmVerif.Props.C11 in
-#print axioms actions_anchor_ok
-#check @CalmVerif.Props.C11.actions_anchor_ok
